@@ -12,7 +12,11 @@ func (g *Gen) Idiom() *Program {
 		x, y = "y", "x"
 	}
 	k := int64(1 + g.R.Intn(3))
-	switch g.R.Intn(46) {
+	pick := g.R.Intn(52)
+	if g.Scopey && pick >= 46 {
+		pick = g.R.Intn(46) // the array-concatenation families belong to the C02 stream
+	}
+	switch pick {
 	case 0:
 		// the caller has a local of the same name as the callee's free variable
 		return &Program{Forms: []*Node{
@@ -245,6 +249,36 @@ func (g *Gen) Idiom() *Program {
 			Defn("f", nil, "", For("", Fn(nil, "", Var(y)), CallN("<", Int(1), Int(0)), Int(0)),
 				Let(false, nil, nil, Def("g", Fn(nil, "", Set(y, Int(k)))), CallN("g"), Def(y, Int(7)), CallN("list", CallN("g"), Var(y)))),
 			CallN("f"), Var(y)}}
+	case 46, 47, 48:
+		// two concats onto the SAME array, then the first result is inspected; the array comes from append
+		// (directly, twice, or grown in a loop), from a literal, or from map
+		var mk []*Node
+		switch g.R.Intn(4) {
+		case 0:
+			mk = []*Node{Def("a", CallN("append", Arr(Int(1), Int(2)), Int(3)))}
+		case 1:
+			mk = []*Node{Def("a", CallN("append", CallN("append", Arr(Int(1)), Int(2)), Int(3)))}
+		case 2:
+			mk = []*Node{Def("a", Arr()),
+				For("", Def("i", Int(0)), CallN("<", Var("i"), Int(k+2)), Set("i", CallN("+", Var("i"), Int(1))), Set("a", CallN("append", Var("a"), Var("i"))))}
+		default:
+			mk = []*Node{Def("a", CallN("map", Fn([]string{x}, "", CallN("+", Var(x), Int(1))), Arr(Int(1), Int(2), Int(3))))}
+		}
+		return &Program{Forms: append(mk, Def("b", CallN("concat", Var("a"), Arr(Int(10)))), Def("c", CallN("concat", Var("a"), Arr(Int(20), Int(21)))),
+			CallN("list", Var("a"), Var("b"), Var("c")))}
+	case 49, 50:
+		// concat onto the result of a concat, twice (was the finding concat-aliasing, fixed in /repo 338a778)
+		return &Program{Forms: []*Node{Def("c", CallN("concat", Arr(Int(1), Int(2), Int(3)), Arr(Int(4)))),
+			Def("d", CallN("concat", Var("c"), Arr(Int(5)))), Def("e", CallN("concat", Var("c"), Arr(Int(k+5)))), CallN("list", Var("d"), Var("e"))}}
+	case 51:
+		// concat is pure: its arguments are unchanged, the result is a new array (also with one argument)
+		if g.R.Intn(3) == 0 {
+			return &Program{Forms: []*Node{Def("a", Arr(Int(1), Int(2))), Def("b", CallN("concat", Var("a"))),
+				CallN("aset", Var("b"), Int(0), Int(k+9)), CallN("list", Var("a"), Var("b"))}}
+		}
+		return &Program{Forms: []*Node{Def("a", Arr(Int(1), Int(2))), Def("b", Arr(Int(3))),
+			Def("c", CallN("concat", Var("a"), Var("b"), Var("a"))), CallN("aset", Var("c"), Int(0), Int(k+9)),
+			CallN("list", Var("a"), Var("b"), Var("c"))}}
 	case 22:
 		// tail recursion creating a closure per iteration, used after later iterations
 		return &Program{Forms: []*Node{Def("a", Arr()),
